@@ -136,6 +136,18 @@ func (m *usernameToUserdataMap) RemoveSession(username string) bool {
 	return false
 }
 
+// RemoveAllSessions drops the userdata entry and the session counter for
+// username whatever the number of recorded logins. Used when the user record
+// itself changes (permissions, activation, password): a cached copy must not
+// outlive the change just because the user logged in more than once.
+func (m *usernameToUserdataMap) RemoveAllSessions(username string) {
+	shard := m.shardFor(username)
+	shard.mu.Lock()
+	delete(shard.sessionCounts, username)
+	delete(shard.Userdata, username)
+	shard.mu.Unlock()
+}
+
 // defaultDbIndex systemdb should always be in index 0
 const (
 	defaultDbIndex = 0
